@@ -13,6 +13,11 @@ CONSTANTS
   BindApis <- AllApis
   FreshConfs = {}
   ConstNames = {}
+  BindFilter <- AnyBind
+  ConstVals = {}
+  QuerySpellings = {}
+  CallMaxExtra = 1
+  CallExtraKw = {"z"}
   CallsWithReq = FALSE
   DevKwEval = FALSE
 VIEW ViewUnordered
